@@ -4,6 +4,8 @@ import random
 from hypothesis import strategies as st
 
 from vlib import jvm
+from vlib.engines import prod as _prod
+from vlib.engines.base import drive as _drive, run_trace as _run_trace
 from vlib.runner import hyp
 
 PROP = "C18"
@@ -200,7 +202,18 @@ _rr_case = st.fixed_dictionaries(
 )
 
 
+class ProdEng(_prod.PRODEngine):
+    """the anchored mechanism 'producer keeps one partitioner per topic and passes the current partition list': selections observed
+    through observing partitioner subclasses while the real Producer runs into leader moves, error codes and metadata reloads"""
+    MACROS = ["partial", "leadermove", "leadermove", "sendduringretry", "burst", "burst"]
+    MACRO_ONE_IN = 3
+
+    def nontrivial(self):
+        return "producer-round-robin-window-checked" in self.nt or any(len(v) >= 3 for v in self.selections.values())
+
+
 def shard(ctx):
+    _drive(ctx, ProdEng, ctx.n(16 * 60, 16 * 1500), min_steps=8, max_steps=60, offset=4, props={"C18"})
     j = J()
     ctx.extra["murmur2_oracle"] = j.kind
 
@@ -269,6 +282,9 @@ EXHAUSTIVE = {"quick": "all keys of length <= 2 (65,793 keys)", "thorough": "all
 
 
 def replay(case, ctx):
+    if isinstance(case, dict) and case.get("engine") == "PROD":
+        _run_trace(ProdEng, case, ctx, props={"C18"})
+        return
     if case["kind"] == "key":
         j = J()
         h = j.hash_many([case["key"]])[0]
